@@ -63,16 +63,16 @@ const (
 )
 
 type Thread struct {
-	ID     int
-	Name   string
-	Class  int
-	s      *Sched
-	pend   int
-	mu     *Mu   // mutex needed to proceed
-	inCond bool  // waiting on a condition variable, not yet signalled
-	joinOn []int // thread ids
-	done   bool
-	hand   handoff
+	ID       int
+	Name     string
+	Class    int
+	s        *Sched
+	pend     int
+	mu       *Mu   // mutex needed to proceed
+	inCond   bool  // waiting on a condition variable, not yet signalled
+	joinOn   []int // thread ids
+	done     bool
+	hand     handoff
 	DoneFlag uint32 // real atomic, gives Join a program-level happens-before edge
 	WaitSite string
 	vc       []uint32 // vector clock (happens-before fingerprinting)
@@ -144,21 +144,21 @@ func (v *Visited) visit(k [3]uint64, used int) bool {
 }
 
 type Config struct {
-	Prefix     []int
-	Points     int // mask of optional point classes
-	Horizon    int
-	DaemonEager bool // default policy: run an enabled journal daemon before clients (instead of only when every client is blocked)
-	KeepClock  bool // do not reset the logical clock at the start
-	Visited    *Visited // nil: no state caching
+	Prefix      []int
+	Points      int // mask of optional point classes
+	Horizon     int
+	DaemonEager bool     // default policy: run an enabled journal daemon before clients (instead of only when every client is blocked)
+	KeepClock   bool     // do not reset the logical clock at the start
+	Visited     *Visited // nil: no state caching
 }
 
 type Result struct {
-	Verdict int
-	Msg     string
-	Stack   string
-	Points  []Point
-	Steps   int
-	Threads []string // state of every thread at the end (for deadlock reports)
+	Verdict  int
+	Msg      string
+	Stack    string
+	Points   []Point
+	Steps    int
+	Threads  []string // state of every thread at the end (for deadlock reports)
 	Diverged bool
 	Pruned   bool // cut short: reached a state the search has already expanded
 }
@@ -178,10 +178,10 @@ type Sched struct {
 	LockObs   func(tid int, kind int, addr uint64)
 	live      int32
 	finished  chan struct{} // closed when the last goroutine is gone (a real channel: the caller of Run is not a thread of the execution)
-	fp        [2]uint64 // fingerprint of the happens-before trace so far
-	used      int       // preemptions used so far
-	diskW     []uint32  // clock of the last disk write/barrier
-	addrW     [][]uint32 // indexed by disk address
+	fp        [2]uint64     // fingerprint of the happens-before trace so far
+	used      int           // preemptions used so far
+	diskW     []uint32      // clock of the last disk write/barrier
+	addrW     [][]uint32    // indexed by disk address
 	addrR     [][]uint32
 }
 
@@ -641,6 +641,16 @@ func SetLockObs(f func(tid int, kind int, addr uint64)) { S.LockObs = f }
 
 //go:norace
 func Steps() int { return S.steps }
+
+// SetHorizon moves the horizon: the execution is declared a runaway when it
+// passes n scheduling points in total.
+//
+//go:norace
+func SetHorizon(n int) {
+	if S != nil {
+		S.cfg.Horizon = n
+	}
+}
 
 // Choose is a data choice among n alternatives.
 //
